@@ -4,6 +4,6 @@ SPECIFICATION Spec
 CONSTANTS
   MaxDev = 2
   UseBackends = {"none"}
-  NPick = 6
+  NPick = 10
 INVARIANTS TypeOK Laws Single Emit
 CHECK_DEADLOCK FALSE
